@@ -164,7 +164,7 @@ pub fn check_packet(x: &[u8]) -> Result<String, Fail> {
     if pp.packet() != x {
         return Err(fail("bytes_changed", "reading through the iterators altered the packet bytes".into()));
     }
-    let mut types: Vec<u16> = d.msg.all_recs().map(|r| r.rtype).collect();
+    let mut types: Vec<u16> = d.msg.all_recs().map(|r| type_bucket(r.rtype)).collect();
     types.sort();
     types.dedup();
     Ok(format!(
@@ -216,6 +216,12 @@ fn run(ctx: &mut Ctx, rep: &mut Report) {
             let x = encode(m, *s);
             debug_assert!(wf(&x).is_ok());
             one(ctx, rep, &x);
+        }
+    });
+    all_types_packets(false, |i, p| {
+        let (ctx, rep) = unsafe { (&mut *ctxp, &mut *repp) };
+        if ctx.mine(i) {
+            one(ctx, rep, p);
         }
     });
     accepted_low_level(ctx.tier.pick(0, 1), |i, p| {
